@@ -44,6 +44,10 @@ except ImportError:  # pragma: no cover
     IR = None
 from . import detach_rules as DT
 try:
+    from . import contract_rules as KR
+except ImportError:  # pragma: no cover
+    KR = None
+try:
     from . import bcast_rules as BR
 except ImportError:  # pragma: no cover
     BR = None
@@ -65,6 +69,12 @@ RULES = {
     "R16l": RR.r16_literals_only,
     "R14t": _get(PR, "r14_seed_untracked"),
     "R54": _get(DT, "r54_no_flat_pairing_in_forward"),
+    "R55e": _get(KR, "r55_ewise"),
+    "R55p": _get(KR, "r55_pointwise"),
+    "R55m": _get(KR, "r55_matmul"),
+    "R55c": _get(KR, "r55_conv"),
+    "R55f": _get(KR, "r55_flatten"),
+    "R55k": _get(KR, "r55_ctors"),
     "R17": RR.r17_eq_fields,
     "R20": RR.r20_ownership_edges,
     "R8": _get(OR, "r8_attach_iff_tracked"),
@@ -115,11 +125,11 @@ RULES = {
 PROPERTY_RULES = {
     "C01": ["R9", "R8", "R5", "R27", "R6", "R24", "R11", "R25", "R23", "R26", "R45", "R10", "R33", "R12", "R13", "R15", "R29", "R31", "R32", "R39", "R51"],
     "C02": ["R12", "R13", "R15", "R9", "R33", "R29", "R31", "R30", "R32", "R39", "R11", "R45", "R51"],
-    "C03": ["R11", "R21"],
-    "C04": ["R40", "R41", "R47", "R54"],
-    "C05": ["R36", "R38", "R40c", "R41", "R49"],
-    "C06": ["R37", "R30"],
-    "C07": ["R35", "R16", "R32"],
+    "C03": ["R11", "R21", "R55f"],
+    "C04": ["R40", "R41", "R47", "R54", "R55e"],
+    "C05": ["R36", "R38", "R40c", "R41", "R49", "R55m"],
+    "C06": ["R37", "R30", "R55c"],
+    "C07": ["R35", "R16", "R32", "R55p"],
     "C08": ["R1", "R2", "R3", "R4", "R7", "R50"],
     "C09": ["R8", "R9", "R10", "R5", "R24", "R47", "R14t"],
     "C10": ["R23", "R20", "R25", "R9", "R11", "R10", "R26", "R24", "R44", "R53"],
@@ -128,7 +138,7 @@ PROPERTY_RULES = {
     "C13": ["R21", "R22", "R28", "R42", "R43", "R46", "R48", "R53", "R23"],
     "C14": ["R21", "R28", "R22", "R20", "R24", "R23", "R42", "R43", "R9", "R46", "R52"],
     "C15": ["R34", "R30"],
-    "C16": ["R16", "R3", "R17", "R41"],
+    "C16": ["R16", "R3", "R17", "R41", "R55k"],
     "C17": ["R13", "R14", "R26", "R44"],
     "C18": ["R20", "R21", "R7", "R8", "R16l", "R9", "R14t"],
     "C19": ["R19"],
